@@ -1,6 +1,7 @@
 package main
 
 import (
+	"strings"
 	"encoding/json"
 	"fmt"
 	"math/big"
@@ -22,12 +23,12 @@ var (
 func init() {
 	register(&Prop{
 		ID:        "C05",
-		Header:    "From Coq Require Import NArith List String.\nFrom V Require Import Lib.Hex Corr.C05Corr.\nImport ListNotations.\nOpen Scope string_scope.\n",
-		Check:     "bad_ids",
-		PropCheck: "prop_bad_ids",
-		Gen:       c05Gen,
-		Run:       c05Run,
-		Rule:      "structured byte strings for the BLS private-key, public-key and signature decoders (valid encodings, all flag combinations, coordinates 0,1,p-1,p,p+1,2^381-1, non-residue x, on-curve points outside the subgroup, infinity with a stray byte at each position, single-bit flips, scalars 0,1,r-1,r,r+1,2^256-1, lengths 0..200); non-trivial = any case whose length is the decoder's expected length; distinct by (decoder, bytes)",
+		Header:    "From Coq Require Import NArith List String.\nFrom V Require Import Lib.Hex Corr.C05Corr Corr.C05AllCorr.\nFrom V Require Corr.C11Corr Corr.C12Corr.\nImport ListNotations.\nOpen Scope string_scope.\n",
+		Check:     "C05AllCorr.bad_ids",
+		PropCheck: "C05AllCorr.prop_bad_ids",
+		Gen:       c05GenAll,
+		Run:       c05RunAll,
+		Rule:      "structured byte strings for the BLS private-key, public-key and signature decoders (valid encodings, all flag combinations, coordinates 0,1,p-1,p,p+1,2^381-1, non-residue x, on-curve points outside the subgroup, infinity with a stray byte at each position, single-bit flips, scalars 0,1,r-1,r,r+1,2^256-1, lengths 0..200); plus the ECDSA decoders of both curves: raw and X9.62-compressed public keys (valid, other root, off-curve, all 256 prefix bytes, x or y >= p, small x, lengths 0..70 incl. SEC1 uncompressed/hybrid forms given to the compressed decoder) and private keys (0, 1, n-1, n, n+1, leading zeros, lengths); non-trivial = any case whose length is the decoder's expected length; distinct by (decoder, bytes)",
 		Shard:     12,
 	})
 }
@@ -306,4 +307,53 @@ func kindOr(k, raw string) string {
 		return "KPkZcashProbe"
 	}
 	return "KPk"
+}
+
+// C05 = the BLS decoders (this file) + the ECDSA public-key decoders (generator and runner of c11.go,
+// evaluated by Corr/C11Corr.v) + the ECDSA private-key decoder (decode cases of c12.go, Corr/C12Corr.v).
+func c05GenAll(tier string, r *rand.Rand) []Case {
+	cs := c05Gen(tier, r)
+	for _, c := range c11GenDecoders(tier, r) {
+		c.Kind = "ecdsa-pub-" + c.Kind
+		cs = append(cs, c)
+	}
+	for _, c := range c12Gen(tier, r) {
+		var in c12In
+		if json.Unmarshal(c.Input, &in) == nil && in.Op == "decode" {
+			c.Kind = "ecdsa-priv-" + c.Kind
+			cs = append(cs, c)
+		}
+	}
+	return cs
+}
+
+func c05RunAll(c Case) (Result, error) {
+	switch {
+	case strings.HasPrefix(c.Kind, "ecdsa-pub-"):
+		res, err := c11Run(c)
+		if err != nil {
+			return res, err
+		}
+		t := strings.Replace(res.Coq, "CDecPub P ", "C11Corr.CDecPub C11Corr.P ", 1)
+		t = strings.Replace(t, "CDecPub K ", "C11Corr.CDecPub C11Corr.K ", 1)
+		res.Coq = "AEcdsaPub (" + t + ")"
+		return res, nil
+	case strings.HasPrefix(c.Kind, "ecdsa-priv-"):
+		res, err := c12Run(c)
+		if err != nil {
+			return res, err
+		}
+		t := strings.Replace(res.Coq, "mkCase ", "C12Corr.mkCase ", 1)
+		for _, a := range []string{"ABls", "AP256", "AK1"} {
+			t = strings.Replace(t, " "+a+" ", " C12Corr."+a+" ", 1)
+		}
+		res.Coq = "AEcdsaPriv (" + t + ")"
+		return res, nil
+	}
+	res, err := c05Run(c)
+	if err != nil {
+		return res, err
+	}
+	res.Coq = "ABlsDec (" + res.Coq + ")"
+	return res, nil
 }
